@@ -240,6 +240,12 @@ class LDAWrapper(LinearSolver):
                 xfull = np.zeros(A.shape[0], dtype=xadd.dtype)
                 xfull[isel] = xadd
                 badd = (A @ xfull)[isel, ...]
+                # The recalculated right-hand side is orthogonal to the database only up to the digits that were lost:
+                # orthogonalize the pair once more (these corrections are small, so nothing is lost this time)
+                for x, b in zip(x_data, b_data):
+                    beta = badd @ b.conj() / (b.conj() @ b)
+                    badd = badd - beta * b
+                    xadd = xadd - beta * x
                 bnrm = np.linalg.norm(badd)
                 badd /= bnrm
                 xadd /= bnrm
